@@ -46,15 +46,6 @@ pub fn col_stat(rows: &[Row], c: usize) -> ColStat {
     }
 }
 
-fn typed_array(c: usize, vals: impl Iterator<Item = V>) -> ArrayRef {
-    match c {
-        0 => Arc::new(vals.map(|v| if let V::I(x) = v { Some(x) } else { None }).collect::<Int64Array>()),
-        1 => Arc::new(vals.map(|v| if let V::S(x) = v { Some(x) } else { None }).collect::<StringArray>()),
-        2 => Arc::new(vals.map(|v| if let V::I(x) = v { Some(x as i32) } else { None }).collect::<Int32Array>()),
-        _ => Arc::new(vals.map(|v| if let V::B(x) = v { Some(x) } else { None }).collect::<BooleanArray>()),
-    }
-}
-
 pub fn scalar_to_v(s: &ScalarValue) -> Option<V> {
     Some(match s {
         ScalarValue::Int64(v) => v.map(V::I).unwrap_or(V::Null),
@@ -78,80 +69,87 @@ fn v_to_scalar(c: usize, v: &V) -> ScalarValue {
     }
 }
 
-/// The check's own statistics provider.
-pub struct MyStats {
+/// The check's own statistics provider. Containers are given as distinct row
+/// multisets (`sets`) and `entries` = (index of the set, pattern) pairs, so
+/// that one set can appear under many weakening patterns in one call.
+pub struct MyStats<'a> {
     /// sorted indices (into COLS) of the columns the predicate references
-    pub cols: Vec<usize>,
-    pub conts: Vec<Cont>,
-    /// per container, per referenced column
-    pub stats: Vec<Vec<ColStat>>,
+    pub cols: &'a [usize],
+    pub entries: &'a [(usize, u32)],
+    /// per set, per referenced column
+    pub stats: &'a [Vec<ColStat>],
+    pub set_len: &'a [usize],
     /// bits (same layout as `Cont::pat`) of statistics for which the whole
     /// method answers `None` instead of an array
     pub whole_absent: u32,
-    pub contained_calls: std::sync::atomic::AtomicU64,
 }
 
-impl MyStats {
-    pub fn new(cols: &[usize], conts: Vec<Cont>, whole_absent: u32) -> Self {
-        let stats = conts.iter().map(|k| cols.iter().map(|c| col_stat(&k.rows, *c)).collect()).collect();
-        MyStats { cols: cols.to_vec(), conts, stats, whole_absent, contained_calls: Default::default() }
-    }
+pub fn set_stats(cols: &[usize], sets: &[Vec<Row>]) -> Vec<Vec<ColStat>> {
+    sets.iter().map(|rows| cols.iter().map(|c| col_stat(rows, *c)).collect()).collect()
+}
+
+impl<'a> MyStats<'a> {
     fn pos(&self, column: &Column) -> Option<(usize, usize)> {
         let c = COLS.iter().position(|n| *n == column.name())?;
         let p = self.cols.iter().position(|x| *x == c)?;
         Some((p, c))
     }
-    fn known(&self, k: usize, bit: u32) -> bool {
-        self.conts[k].pat & (1 << bit) != 0
-    }
-    pub fn row_bit(&self) -> u32 {
-        4 * self.cols.len() as u32
+    fn minmax(&self, column: &Column, kind: u32) -> Option<ArrayRef> {
+        let (p, c) = self.pos(column)?;
+        let bit = 1u32 << (4 * p as u32 + kind);
+        if self.whole_absent & bit != 0 {
+            return None;
+        }
+        let get = |e: &(usize, u32)| -> Option<&V> {
+            if e.1 & bit == 0 {
+                return None;
+            }
+            let st = &self.stats[e.0][p];
+            let v = if kind == MIN { &st.min } else { &st.max };
+            (*v != V::Null).then_some(v)
+        };
+        let it = self.entries.iter().map(get);
+        Some(match c {
+            0 => Arc::new(it.map(|v| if let Some(V::I(x)) = v { Some(*x) } else { None }).collect::<Int64Array>()),
+            1 => Arc::new(it.map(|v| if let Some(V::S(x)) = v { Some(x.as_str()) } else { None }).collect::<StringArray>()),
+            2 => Arc::new(it.map(|v| if let Some(V::I(x)) = v { Some(*x as i32) } else { None }).collect::<Int32Array>()),
+            _ => Arc::new(it.map(|v| if let Some(V::B(x)) = v { Some(*x) } else { None }).collect::<BooleanArray>()),
+        })
     }
 }
 
-impl PruningStatistics for MyStats {
+impl<'a> PruningStatistics for MyStats<'a> {
     fn min_values(&self, column: &Column) -> Option<ArrayRef> {
-        let (p, c) = self.pos(column)?;
-        let bit = 4 * p as u32 + MIN;
-        if self.whole_absent & (1 << bit) != 0 {
-            return None;
-        }
-        Some(typed_array(c, (0..self.conts.len()).map(|k| if self.known(k, bit) { self.stats[k][p].min.clone() } else { V::Null })))
+        self.minmax(column, MIN)
     }
     fn max_values(&self, column: &Column) -> Option<ArrayRef> {
-        let (p, c) = self.pos(column)?;
-        let bit = 4 * p as u32 + MAX;
-        if self.whole_absent & (1 << bit) != 0 {
-            return None;
-        }
-        Some(typed_array(c, (0..self.conts.len()).map(|k| if self.known(k, bit) { self.stats[k][p].max.clone() } else { V::Null })))
+        self.minmax(column, MAX)
     }
     fn num_containers(&self) -> usize {
-        self.conts.len()
+        self.entries.len()
     }
     fn null_counts(&self, column: &Column) -> Option<ArrayRef> {
         let (p, _) = self.pos(column)?;
-        let bit = 4 * p as u32 + NULLS;
-        if self.whole_absent & (1 << bit) != 0 {
+        let bit = 1u32 << (4 * p as u32 + NULLS);
+        if self.whole_absent & bit != 0 {
             return None;
         }
-        Some(Arc::new((0..self.conts.len()).map(|k| self.known(k, bit).then(|| self.stats[k][p].nulls)).collect::<UInt64Array>()))
+        Some(Arc::new(self.entries.iter().map(|e| (e.1 & bit != 0).then(|| self.stats[e.0][p].nulls)).collect::<UInt64Array>()))
     }
     fn row_counts(&self) -> Option<ArrayRef> {
-        let bit = self.row_bit();
-        if self.whole_absent & (1 << bit) != 0 {
+        let bit = 1u32 << (4 * self.cols.len() as u32);
+        if self.whole_absent & bit != 0 {
             return None;
         }
-        Some(Arc::new((0..self.conts.len()).map(|k| self.known(k, bit).then(|| self.conts[k].rows.len() as u64)).collect::<UInt64Array>()))
+        Some(Arc::new(self.entries.iter().map(|e| (e.1 & bit != 0).then(|| self.set_len[e.0] as u64)).collect::<UInt64Array>()))
     }
     /// The documented three-way rule: `true` = every value of the column in the
     /// container is one of `values` (a NULL is not one of them), `false` = none
     /// is, NULL = mixed / unknown.
     fn contained(&self, column: &Column, values: &HashSet<ScalarValue>) -> Option<BooleanArray> {
-        self.contained_calls.fetch_add(1, std::sync::atomic::Ordering::Relaxed);
         let (p, _) = self.pos(column)?;
-        let bit = 4 * p as u32 + CONTAINED;
-        if self.whole_absent & (1 << bit) != 0 {
+        let bit = 1u32 << (4 * p as u32 + CONTAINED);
+        if self.whole_absent & bit != 0 {
             return None;
         }
         let mut set: Vec<V> = vec![];
@@ -162,36 +160,35 @@ impl PruningStatistics for MyStats {
                 None => return None, // a literal type the check does not model: unknown
             }
         }
-        Some(
-            (0..self.conts.len())
-                .map(|k| {
-                    if !self.known(k, bit) {
-                        return None;
-                    }
-                    let vals = &self.stats[k][p].values;
-                    let inside = vals.iter().filter(|v| **v != V::Null && set.contains(v)).count();
-                    if inside == vals.len() {
-                        Some(true)
-                    } else if inside == 0 {
-                        Some(false)
-                    } else {
-                        None
-                    }
-                })
-                .collect(),
-        )
+        let per_set: Vec<Option<bool>> = self
+            .stats
+            .iter()
+            .map(|st| {
+                let vals = &st[p].values;
+                let inside = vals.iter().filter(|v| **v != V::Null && set.contains(v)).count();
+                if inside == vals.len() {
+                    Some(true)
+                } else if inside == 0 {
+                    Some(false)
+                } else {
+                    None
+                }
+            })
+            .collect();
+        Some(self.entries.iter().map(|e| if e.1 & bit != 0 { per_set[e.0] } else { None }).collect())
     }
 }
 
 /// DataFusion's own provider over `Statistics`; a statistic whose bit is unset
 /// is `Absent` or (alternating) an `Inexact` value that is deliberately
 /// misleading: inexact statistics are estimates and must not be relied on.
-pub fn prunable(cols: &[usize], conts: &[Cont]) -> PrunableStatistics {
+pub fn prunable(cols: &[usize], sets: &[Vec<Row>], entries: &[(usize, u32)]) -> PrunableStatistics {
     let row_bit = 4 * cols.len() as u32;
-    let stats: Vec<Arc<Statistics>> = conts
+    let stats: Vec<Arc<Statistics>> = entries
         .iter()
         .enumerate()
-        .map(|(k, cont)| {
+        .map(|(k, e)| {
+            let cont = Cont { rows: sets[e.0].clone(), pat: e.1 };
             let known = |bit: u32| cont.pat & (1 << bit) != 0;
             let weak = |salt: usize| (k + salt) % 2 == 0;
             let mut column_statistics = vec![];
@@ -274,9 +271,24 @@ pub fn multisets(nrows: usize, max_rows: usize) -> Vec<Vec<usize>> {
 /// Weakening patterns for `ncols` referenced columns: every subset of the
 /// `4*ncols + 1` statistics when `ncols <= 2`; for more columns the same kind
 /// of statistic is weakened on all columns together (2^5 patterns).
-pub fn patterns(ncols: usize) -> Vec<u32> {
+pub fn patterns(ncols: usize, reduced: bool) -> Vec<u32> {
     let nbits = 4 * ncols as u32 + 1;
-    if ncols <= 2 {
+    if ncols == 2 && reduced {
+        // per column: all known, each single statistic unknown, only min/max known,
+        // only counts+contained known, nothing known (8 of the 16 subsets); full
+        // product over the two columns and the row count
+        let per: [u32; 8] = [0b1111, 0b1110, 0b1101, 0b1011, 0b0111, 0b0011, 0b1100, 0b0000];
+        let mut v = vec![];
+        for a in per {
+            for b in per {
+                for r in [1u32, 0] {
+                    v.push(a | (b << 4) | (r << 8));
+                }
+            }
+        }
+        v.sort_by_key(|p| (nbits - p.count_ones(), *p));
+        v
+    } else if ncols <= 2 {
         let mut v: Vec<u32> = (0..(1u32 << nbits)).collect();
         // fully known first, then by number of unknowns
         v.sort_by_key(|p| (nbits - p.count_ones(), *p));
